@@ -1,5 +1,6 @@
 import DoltVerif.Model.Wire
 import DoltVerif.Model.Query
+import DoltVerif.Model.QueryLeft
 /-!
 Model driver for C26 (`dv_query`).  Cells: `N` or an integer; tuples: cells joined by `,`; lists of
 tuples joined by `;` (`-` = empty list).  Cuts: `bn an aa b<int> a<int>`; a column expr `lo,hi`; a range =
@@ -61,6 +62,15 @@ def step (_ : Unit) : List String → Unit × String
       let res := mergeJoin headCell headCell (fun a b => keyEq (headCell a) (headCell b)) l r
       ((), if res.isEmpty then "-" else ";".intercalate (res.map (fun (a, b) => s!"{rCell (headCell a.tail)}:{rCell (headCell b.tail)}")))
     | _, _ => ((), "bad-op")
+  | ["lmerge", l, r, ex] =>
+    -- LEFT OUTER merge join state machine; extra filter `right key = ex` unless ex = `N`
+    match pTuples l, pTuples r, pCell ex with
+    | some l, some r, some ex =>
+      let extra : Tuple → Tuple → Bool := fun _ b => match ex with | none => true | some k => headCell b == some k
+      let res := leftMergeJoin headCell headCell (fun a b => keyEq (headCell a) (headCell b) && extra a b) l r
+      ((), if res.isEmpty then "-" else ";".intercalate (res.map (fun (a, b) =>
+        s!"{rCell (headCell a.tail)}:{match b with | none => "N" | some b => rCell (headCell b.tail)}")))
+    | _, _, _ => ((), "bad-op")
   | ["count", nl, col, rows] =>
     match nl.toNat?, col.toNat?, pTuples rows with
     | some nl, some col, some rows => ((), toString (countAgg (nl != 0) (fun t => (t[col]?).join) rows))
